@@ -233,3 +233,61 @@ Proof.
   assert (0 <= k / 24 < 7) by (split; [ apply Z.div_pos; lia | apply Z.div_lt_upper_bound; lia ]).
   lia.
 Qed.
+
+(* ------------------------------------------------------------------------------------------------ *)
+(* E. endpoint lists selected by keep-flags; features of both occupancy modes together               *)
+(* ------------------------------------------------------------------------------------------------ *)
+
+Local Open Scope Q_scope.
+
+Lemma increasing_lower_bound : forall l a, increasing (a :: l) -> Forall (fun x => a <= x) l.
+Proof.
+  induction l as [ | b l IH ]; intros a H; [ constructor | ].
+  destruct H as [Hab Hinc]. constructor; [ exact Hab | ].
+  specialize (IH b Hinc). eapply Forall_impl; [ | exact IH ]. intros x Hx. cbn beta in Hx. apply (Qle_trans _ b); assumption.
+Qed.
+
+Lemma increasing_cons : forall l a, Forall (fun x => a <= x) l -> increasing l -> increasing (a :: l).
+Proof.
+  intros [ | b l ] a HF Hinc; cbn [increasing]; split; try exact I; try exact Hinc.
+  inversion HF; assumption.
+Qed.
+
+Lemma increasing_tail : forall l a, increasing (a :: l) -> increasing l.
+Proof. intros l a H. destruct H as [_ H]. exact H. Qed.
+
+Lemma select_Forall : forall (A : Type) (P : A -> Prop) flags (l : list A), Forall P l -> Forall P (select flags l).
+Proof.
+  intros A P flags l. revert flags. induction l as [ | x l IH ]; intros [ | b flags ] H; cbn [select]; try constructor.
+  inversion H as [ | ? ? Hx Hl ]; subst. destruct b; [ constructor; [ exact Hx | apply IH; exact Hl ] | apply IH; exact Hl ].
+Qed.
+
+(* a sub-list of an increasing list is increasing *)
+Lemma select_increasing : forall flags l, increasing l -> increasing (select flags l).
+Proof.
+  intros flags l. revert flags. induction l as [ | x l IH ]; intros [ | b flags ] H; cbn [select]; try exact I.
+  destruct b.
+  - apply increasing_cons; [ apply select_Forall; apply increasing_lower_bound; exact H | apply IH; eapply increasing_tail; exact H ].
+  - apply IH. eapply increasing_tail. exact H.
+Qed.
+
+Lemma bsum_zeros : forall (l : list Q), bsum (map (fun _ => 0) l) == 0.
+Proof. induction l as [ | x l IH ]; [ reflexivity | ]. cbn [map]. rewrite bsum_cons. rewrite IH. lra. Qed.
+
+(* both feature groups of an hour together: they hold the temperature once (in the group of the hour's occupancy
+   mode), the other group is zero *)
+Lemma occupancy_features_sum_l : forall (b : bool) (t : Q) eo eu, increasing eo -> increasing eu ->
+  let ou := occupancy_split QOps (Some b) (Some t) eo eu in
+  exists o u, fst ou = map Some o /\ snd ou = map Some u /\ bsum o + bsum u == t /\
+              (if b then Forall (fun x => x = 0) u else Forall (fun x => x = 0) o).
+Proof.
+  intros b t eo eu Ho Hu. unfold occupancy_split, zeros, bin_features_opt. destruct b; cbn [fst snd].
+  - exists (qbins t eo), (map (fun _ => 0) (qbins t eu)). repeat split.
+    + rewrite !map_map. reflexivity.
+    + rewrite bsum_zeros. rewrite (bins_sum_to_T_l t eo Ho). lra.
+    + apply Forall_forall. intros x Hx. apply in_map_iff in Hx. destruct Hx as [y [Hy _]]. symmetry. exact Hy.
+  - exists (map (fun _ => 0) (qbins t eo)), (qbins t eu). repeat split.
+    + rewrite !map_map. reflexivity.
+    + rewrite bsum_zeros. rewrite (bins_sum_to_T_l t eu Hu). lra.
+    + apply Forall_forall. intros x Hx. apply in_map_iff in Hx. destruct Hx as [y [Hy _]]. symmetry. exact Hy.
+Qed.
